@@ -674,6 +674,14 @@ func (x *Exec) step(st *State, ins ssa.Instruction) {
 		np := *b.P
 		np.Path = append(append([]Sel(nil), b.P.Path...), Sel{Field: in.Field})
 		if b.P.Cell == nil {
+			if x.fc != nil && x.fc.Checks["nil"] && fr.depth == 0 && x.discovery == 0 && len(b.P.Path) == 0 && b.P.Idx == "" && !b.P.Abs {
+				stt := in.X.Type().Underlying().(*types.Pointer).Elem()
+				fname := ""
+				if s, ok := stt.Underlying().(*types.Struct); ok {
+					fname = s.Field(in.Field).Name()
+				}
+				x.emit(st, "nil:"+shortType(stt)+"."+fname, "nil", "pointer is not nil where a field is accessed", fmt.Sprintf("(not (= %s 0))", b.P.Base))
+			}
 			st.assume(fmt.Sprintf("(not (= %s 0))", b.P.Base)) // a nil dereference panics
 		}
 		fr.regs[in] = &Value{K: KPtr, T: in.Type(), P: &np}
@@ -828,9 +836,17 @@ func (x *Exec) unop(st *State, in *ssa.UnOp) *Value {
 			return x.freshValue(st, in.Type(), "load")
 		}
 		if !v.P.Nil && v.P.Cell == nil && !v.P.Abs && v.P.Idx == "" {
+			if x.fc != nil && x.fc.Checks["nil"] && st.top().depth == 0 && x.discovery == 0 && len(v.P.Path) == 0 {
+				x.emit(st, "nil:*"+shortType(in.X.Type().Underlying().(*types.Pointer).Elem()), "nil", "pointer is not nil where it is dereferenced", fmt.Sprintf("(not (= %s 0))", v.P.Base))
+			}
 			st.assume(fmt.Sprintf("(not (= %s 0))", v.P.Base))
 		}
-		return x.load(st, v.P, in.Type())
+		lv := x.load(st, v.P, in.Type())
+		if g, ok := in.X.(*ssa.Global); ok && lv.K == KIface && x.eng.initOnlyErrGlobal(g) {
+			// a package-level error variable initialised by errors.New/fmt.Errorf and never assigned again
+			st.assume(fmt.Sprintf("(not (= %s 0))", lv.Fs[0].Term))
+		}
+		return lv
 	case token.SUB:
 		return x.arith(st, in.Type(), fmt.Sprintf("(- %s)", v.Term), "neg")
 	case token.NOT:
@@ -1632,4 +1648,9 @@ func (x *Exec) rangeOrdinal(in *ssa.Range) int {
 		}
 	}
 	return n
+}
+
+// shortType: a stable short name of a type for obligation labels.
+func shortType(t types.Type) string {
+	return types.TypeString(t, func(p *types.Package) string { return p.Name() })
 }
